@@ -280,6 +280,7 @@ class CrossRecurrencePlot(RecurrencePlot):
         recurrence = np.zeros((N, M), dtype="int8")
         recurrence[distance < threshold] = 1
         self.CR = recurrence
+        self._recurrence_matrix_changed()
         self.N = N
         self.M = M
 
@@ -303,6 +304,7 @@ class CrossRecurrencePlot(RecurrencePlot):
         recurrence = np.zeros((N, M), dtype="int8")
         recurrence[distance < threshold] = 1
         self.CR = recurrence
+        self._recurrence_matrix_changed()
         self.N = N
         self.M = M
 
